@@ -3,6 +3,6 @@ EXTENDS EventCtx, Json
 KeysDef == {"a", "b"}
 GapsDef == {1000, 2000}
 DursDef == {0, 1000, 1500, 3000}       \* (0: a process of no extent - started and ended at its own time point)
-Expected == [j \in 1..NT |-> [started |-> Started(j), context |-> Context(j), time |-> times[j]]]
+Expected == [j \in 1..NT |-> [started |-> Started(j), context |-> Context(j), active |-> Active(j), time |-> times[j]]]
 Emit == PrintT("@@EMIT@@" \o ToJson([times |-> times, acts |-> acts, procs |-> procs, expected |-> Expected, endidx |-> [p \in 1..Len(procs) |-> EndIdx(p)]]))
 ====
